@@ -50,7 +50,9 @@ def validate_step(R, env, st, act, ns, ts, n=2):
     for _ in range(n):
         a0 = jnp.asarray(rng.integers(lo, hi + 1).astype(spec.dtype))
         out = f(s0, a0)
-        S.differential(R, type(env).__name__ + ".step", (st, act), (ns, ts), out, (s0, a0))
+        # float leaves may differ in the last bits: the jitted program fuses/reassociates reductions (a 20-city tour length differs by
+        # 1 ulp from the equation-by-equation evaluation); integer and boolean leaves are compared exactly
+        S.differential(R, type(env).__name__ + ".step", (st, act), (ns, ts), out, (s0, a0), ulps=8)
         s0 = out[0]
 
 
